@@ -303,4 +303,45 @@ theorem sepList0_of_fails {α β : Type} {sep : P β} {p : P α} {i : Str} (h : 
     sepList0 sep p i = .ok [] i := by
   obtain ⟨e, c, h⟩ := h; simp [sepList0, h]
 
+/-! ### Decimal digits (`^N`) -/
+
+theorem digitChar_facts {d : Nat} (h : d < 10) :
+    isDigit (Char.ofNat (48 + d)) = true ∧ (Char.ofNat (48 + d)).toNat - 48 = d := by
+  have : d = 0 ∨ d = 1 ∨ d = 2 ∨ d = 3 ∨ d = 4 ∨ d = 5 ∨ d = 6 ∨ d = 7 ∨ d = 8 ∨ d = 9 := by omega
+  rcases this with rfl | rfl | rfl | rfl | rfl | rfl | rfl | rfl | rfl | rfl <;> decide
+
+theorem digitsVal_append (xs : Str) (c : Char) :
+    digitsVal (xs ++ [c]) = digitsVal xs * 10 + (c.toNat - 48) := by
+  simp [digitsVal, List.foldl_append]
+
+theorem natDigits_spec (n : Nat) :
+    (natDigits n).all isDigit = true ∧ natDigits n ≠ [] ∧ digitsVal (natDigits n) = n := by
+  induction n using Nat.strongRecOn with
+  | _ n ih =>
+    rw [natDigits]
+    by_cases h : n < 10
+    · simp only [h, dif_pos]
+      have := digitChar_facts h
+      refine ⟨by simp [this.1], by simp, ?_⟩
+      simp [digitsVal, this.2]
+    · simp only [h, dif_neg, not_false_eq_true]
+      obtain ⟨h1, h2, h3⟩ := ih (n / 10) (by omega)
+      have := digitChar_facts (d := n % 10) (by omega)
+      refine ⟨by simp [h1, this.1], by simp, ?_⟩
+      rw [digitsVal_append, h3, this.2]; omega
+
+theorem usize_append {n : Nat} {rest : Str} (hn : n < 2 ^ 64)
+    (hr : ∀ c t, rest = c :: t → isDigit c = false) :
+    usize (natDigits n ++ rest) = .ok n rest := by
+  obtain ⟨h1, h2, h3⟩ := natDigits_spec n
+  have := takeWhile_append_stop h1 hr
+  unfold usize
+  simp only [this.1, this.2, h3]
+  have : (natDigits n).isEmpty = false := by
+    cases hd : natDigits n with
+    | nil => exact absurd hd h2
+    | cons a b => rfl
+  simp [this, hn]
+
+
 end QM.Parse
